@@ -217,8 +217,46 @@ func c01Cases(tier string, seed uint64) []fw.Case {
 		progs = append(progs, randomProgs(rng, 120, 3, 14)...)
 		cs = c01CasesFor(progs, rng, 3, 5, 2, nil)
 	}
+	// deterministic schedule perturbation: on the forced programs one goroutine falls behind at the n-th hit
+	// of an instrumentation site (stepwise with the first answer order, and one storm run)
+	nths := []int{1, 3}
+	if tier == "thorough" {
+		nths = []int{1, 2, 3, 4, 6, 9, 14}
+	}
+	forced := append(forcedPairs(fw.NewRng(seed, "C01")), forcedData()...)
+	for _, p := range forced {
+		g := gen.Lower("p", p.AST)
+		vars := zeroData(assignments(p.NV, 1, rng)[0], p.AST)
+		base := step.Case{Name: p.Name + "/delay", G: g, Vars: vars, Family: p.Family, Lenient: hasOr(g)}
+		orders, _ := step.Orders(&base, 1, rng)
+		if len(orders) == 0 {
+			continue
+		}
+		for _, site := range delaySites {
+			for _, nth := range nths {
+				sc := base
+				sc.Order = orders[0]
+				sc.Waiters = 1
+				sc.DelaySite, sc.DelayNth, sc.DelayUs = site, nth, 300
+				sc.Name = fmt.Sprintf("%s/delay:%s#%d", p.Name, site, nth)
+				cs = append(cs, fw.MkCase("stepwise-delay", &sc))
+				if tier == "thorough" {
+					st := sc
+					st.Order = nil
+					st.Storm = true
+					st.Reps = 1
+					cs = append(cs, fw.MkCase("storm-delay", &st))
+				}
+			}
+		}
+	}
 	return fw.Number(cs)
 }
+
+// delaySites: the instrumentation sites a single-instance program can reach
+var delaySites = []string{"tracer.bcast", "tracer.send", "tracer.sub", "tracer.unsub", "flow.loop", "flow.action", "flow.fork",
+	"gw.parallel.next", "gw.exclusive.next", "gw.exclusive.report", "gw.inclusive.next", "gw.inclusive.tracker", "gw.inclusive.activity",
+	"act.relay", "task.do", "task.process", "task.sent", "process.started", "process.monitor", "sub.subscribed", "relay.forward"}
 
 func init() {
 	fw.Register(&fw.Prop{
@@ -227,7 +265,7 @@ func init() {
 		Run: func(c fw.Case, env *fw.Env) *fw.V {
 			return runStep("C01", c, env, nil)
 		},
-		Rule: "block-structured programs (every legal ordered nesting pair of {xor,and,or,loop,conditional-flow task,sub-process} + data-flow programs in which a condition reads what a task on another, already joined token wrote (sub-process, nested, parallel block, loop, exclusive branch, conditional flows) + PRNG programs, depth<=3/4, half of them with task-written data variables read by later conditions) x variable assignments steering the conditions x answer orders (all if <=limit else PRNG-drawn) run stepwise against the reference token game at every quiescent point, plus storm runs; non-trivial = >=1 gateway/conditional flow and (>=2 requests pending at once or a condition decided a route); distinct = descriptor hash",
+		Rule: "block-structured programs (every legal ordered nesting pair of {xor,and,or,loop,conditional-flow task,sub-process} + data-flow programs in which a condition reads what a task on another, already joined token wrote (sub-process, nested, parallel block, loop, exclusive branch, conditional flows) + PRNG programs, depth<=3/4, half of them with task-written data variables read by later conditions) x variable assignments steering the conditions x answer orders (all if <=limit else PRNG-drawn) run stepwise against the reference token game at every quiescent point, plus storm runs; the forced programs again with a deterministic schedule perturbation (the goroutine making the n-th hit of each of 21 instrumentation sites pauses 300 us); non-trivial = >=1 gateway/conditional flow and (>=2 requests pending at once or a condition decided a route); distinct = descriptor hash",
 		Assumptions: []string{"programs are block-structured and data-race-free by construction (conditions read variables no concurrently live branch writes)", "reference token game is the oracle"},
 	})
 }
